@@ -3,7 +3,7 @@ From Coq Require Import String List Bool Arith NArith.
 Local Open Scope string_scope.
 Local Open Scope list_scope.
 Import ListNotations.
-Require Import PyStr Line Matcher Ast Builder CellsSpec Table TableFacts.
+Require Import PyStr Line Matcher Ast Builder CellsSpec CellsPairs Table TableFacts.
 
 (* the tokens (unescaped pipe, escape pair, plain character, lone final backslash) partition the row *)
 Theorem C12_lex_partition : forall row, raws (lex row) = row.
@@ -64,3 +64,22 @@ Print Assumptions C12_rows_of_one_table.
 Theorem C12_reference_table : siblings_agree = true.
 Proof. exact siblings_agree_ok. Qed.
 Print Assumptions C12_reference_table.
+
+(* read off the character loop itself: a cell made of plain text (no pipe, no backslash), one backslash pair, plain text
+   holds the pair's value -- LF for '\n', the character for '\|' and '\\', the pair as written for every other
+   second character -- and starts in column 2 *)
+Theorem C12_one_pair : forall a d b, plain a = true -> plain b = true ->
+  split_table_cells (PIPE :: a ++ BSL :: d :: b ++ [PIPE]) = [(a ++ pair_value d ++ b, 2%nat)].
+Proof. exact one_pair_cell. Qed.
+Print Assumptions C12_one_pair.
+
+Theorem C12_other_pair_kept : forall a d b, plain a = true -> plain b = true ->
+  d <> CH_n -> d <> PIPE -> d <> BSL ->
+  split_table_cells (PIPE :: a ++ BSL :: d :: b ++ [PIPE]) = [(a ++ BSL :: d :: b, 2%nat)].
+Proof. exact other_pair_kept. Qed.
+Print Assumptions C12_other_pair_kept.
+
+Example C12_other_pair_sample :
+  plain (s2l " C:") = true /\ plain (s2l "mp ") = true
+  /\ split_table_cells (s2l "| C:\tmp |") = [(s2l " C:\tmp ", 2%nat)].
+Proof. vm_compute. repeat split; reflexivity. Qed.
